@@ -207,8 +207,8 @@ func rNorm(p string) (toks []rTok, names []string, textAfterStar bool) {
 	return toks, names, false
 }
 
-// rWFTable: the harness's own reading of "well-formed table" (Lean: Router.Tree.wfTable): no pattern
-// with an escaped colon or text after `*`, no two routes with the same method and normalised pattern.
+// rWFTable: the harness's own reading of "every pattern is representable" (Lean: Router.Tree.okTable): no
+// pattern with an escaped colon or text after `*`.
 func rWFTable(routes []rRoute) bool {
 	seen := map[string]bool{}
 	for _, r := range routes {
@@ -234,13 +234,24 @@ func rWFTable(routes []rRoute) bool {
 				break
 			}
 		}
+		_ = toks
+	}
+	_ = seen
+	return true
+}
+
+// rHasReRegistration: some route (same method, same normalised pattern) is registered more than once.
+func rHasReRegistration(routes []rRoute) bool {
+	seen := map[string]bool{}
+	for _, r := range routes {
+		toks, _, _ := rNorm(r.Path)
 		k := r.Method + " " + rTokKey(toks)
 		if seen[k] {
-			return false
+			return true
 		}
 		seen[k] = true
 	}
-	return true
+	return false
 }
 
 func rTokKey(toks []rTok) string {
@@ -308,6 +319,7 @@ var rMethods = []string{"GET", "POST", "PUT", "DELETE", "OPTIONS", "X-CUSTOM", "
 type rGenOpts struct {
 	escaped  bool // allow `\:` segments
 	maxRoute int
+	dups     bool // allow a route to be registered again (same method, same normalised pattern)
 }
 
 func rGenSegment(r *rand.Rand, o rGenOpts) string {
@@ -404,11 +416,14 @@ func rGenTable(r *rand.Rand, o rGenOpts) []rRoute {
 		}
 		toks, _, _ := rNorm(p)
 		key := m + " " + rTokKey(toks)
-		if seen[key] {
+		if seen[key] && !(o.dups && r.Intn(2) == 0) {
 			if r.Intn(3) == 0 {
 				break
 			}
 			continue
+		}
+		if seen[key] && strings.Contains(p, ":") && r.Intn(2) == 0 {
+			p = strings.Replace(p, ":", ":re", 1) // the re-registration names its parameter differently
 		}
 		seen[key] = true
 		out = append(out, rRoute{m, p})
